@@ -22,16 +22,30 @@ ROOTS = ["jaq_core::compile::Filter", "jaq_core::compile::Lut", "jaq_core::compi
 def doctests(crate_dir, name):
     """Run the witness doc-tests (type checking only). Returns (ok, results, log)."""
     # instantiate the witness crate against the repository under analysis (path dependencies)
-    work = os.path.join(CACHE, f"witness-{name}")
-    shutil.rmtree(work, ignore_errors=True)
-    shutil.copytree(crate_dir, work, ignore=shutil.ignore_patterns("target", "Cargo.lock"))
-    toml = open(os.path.join(work, "Cargo.toml")).read().replace('"/repo/', '"' + REPO.rstrip("/") + "/")
-    open(os.path.join(work, "Cargo.toml"), "w").write(toml)
-    shutil.copy(os.path.join(REPO, "Cargo.lock"), os.path.join(work, "Cargo.lock"))
-    env = dict(os.environ, CARGO_TARGET_DIR=os.path.join(CACHE, "witness-target"), CARGO_NET_OFFLINE="true")
-    r = sh("cargo +nightly test --doc --offline", cwd=work, env=env)
-    out = r.stdout + r.stderr
-    res = re.findall(r"^test (src/lib\.rs - (\S+) \(line \d+\)(?: - (compile fail|compile))?) \.\.\. (\w+)", out, re.M)
+    import hashlib
+    from common import Lock
+    tag = hashlib.sha1(REPO.encode()).hexdigest()[:8]
+    work = os.path.join(CACHE, f"witness-{name}-{tag}")
+    os.makedirs(CACHE, exist_ok=True)
+    # one witness build at a time (shared target directory); concurrent checks of other trees use other work directories
+    with Lock(os.path.join(CACHE, "witness.lock")):
+        for attempt in range(3):
+            shutil.rmtree(work, ignore_errors=True)
+            shutil.copytree(crate_dir, work, ignore=shutil.ignore_patterns("target", "Cargo.lock"))
+            toml = open(os.path.join(work, "Cargo.toml")).read().replace('"/repo/', '"' + REPO.rstrip("/") + "/")
+            open(os.path.join(work, "Cargo.toml"), "w").write(toml)
+            shutil.copy(os.path.join(REPO, "Cargo.lock"), os.path.join(work, "Cargo.lock"))
+            env = dict(os.environ, CARGO_TARGET_DIR=os.path.join(CACHE, "witness-target"), CARGO_NET_OFFLINE="true")
+            for k in ("RUSTC_WRAPPER", "RUSTC_WORKSPACE_WRAPPER", "RUSTFLAGS", "JAQLINT_OUT"):
+                env.pop(k, None)
+            r = sh("cargo +nightly test --doc --offline", cwd=work, env=env)
+            out = r.stdout + r.stderr
+            res = re.findall(r"^test (src/lib\.rs - (\S+) \(line \d+\)(?: - (compile fail|compile))?) \.\.\. (\w+)", out, re.M)
+            # a failure that is neither a doc-test verdict nor a compiler diagnostic is the environment (e.g. the
+            # toolchain could not be started under load): try again instead of reporting a property violation
+            if r.returncode == 0 or res or re.search(r"error\[E\d+\]|^error: (?!process didn't exit|could not (execute|exec)|failed to run)", out, re.M):
+                break
+            time.sleep(5 * (attempt + 1))
     return r.returncode == 0, res, out
 
 
